@@ -475,6 +475,8 @@ pub fn run(ctx: &Ctx) {
     let t = ctx.tier;
     // depth stress first (a crash is attributed through the progress hint)
     let depths = [100usize, 1_000, 10_000, 20_000, 40_000, 80_000, 200_000, 1_000_000];
+    let probe_depth = ctx.param_u64("depth", 0);
+    let probe_fam = ctx.param_u64("fam", 0);
     ctx.run_sub("depth-stress", Plan::enumerate(2 * depths.len() as u64 + 12, 0.1), |_rng, case| {
         let (fam, d) = if (case.idx as usize) < 2 * depths.len() {
             (case.idx % 2, depths[(case.idx / 2) as usize])
@@ -482,6 +484,7 @@ pub fn run(ctx: &Ctx) {
             let k = case.idx as usize - 2 * depths.len();
             (2 + (k / 6) as u64, [10usize, 30, 62, 63, 64, 200][k % 6])
         };
+        let (fam, d) = if probe_depth > 0 { (probe_fam, probe_depth as usize) } else { (fam, d) };
         let fname = ["deep-sum-unify", "deep-chain", "pair-tower", "pair-tower-two-comps"][fam as usize];
         case.hint(&format!("family={} depth={}", fname, d));
         let p = depth_bytes(fam, d);
